@@ -365,10 +365,10 @@ class Intervals:
                 it = it[1] if it[0] in ('ref', 'deref') else it[2][0]
             if it[0] == 'agg' and str(it[1]).endswith('Range::Range') and len(it[2]) == 2:
                 a, b = ev(it[2][0]), ev(it[2][1])
-                return Ival(a.lo, b.hi - 1 if b.hi != INF else INF)
+                return Ival(a.lo, b.hi - 1 if b.hi != INF else INF, b.prop)
             if it[0] == 'call' and it[1].endswith('RangeInclusive::new') and len(it[2]) == 2:
                 a, b = ev(it[2][0]), ev(it[2][1])
-                return Ival(a.lo, b.hi)
+                return Ival(a.lo, b.hi, b.prop)
         if ln in ('min',) and len(args) == 2:
             a, b = ev(args[0]), ev(args[1])
             hi = min(a.hi, b.hi)
@@ -443,6 +443,8 @@ class Intervals:
                     e = pg.rvalue(node['rv'], 0)
                 elif k == 'call':
                     c = callee_of(node)
+                    if c and strip_generics(c['path']).endswith('FromResidual::from_residual'):
+                        continue   # `?`: carries only the Err/None case, no payload value
                     e = ('call', strip_generics(c['path']) if c else '?', [pg.operand(a) for a in node['args']], node)
                 else:
                     continue
